@@ -34,6 +34,9 @@ def run(tier):
         src, mods = progs.generate(r2.fork(str(i)), prof)
         plist.append({"name": "mixed/%d" % i, "steps": [("snip", src)], "mods": mods})
 
+    for name, src in feat_data.map_size_programs(ck.rng.fork("sizes")):
+        plist.append({"name": name, "steps": [("snip", src)], "mods": [], "budget": 3000000})
+
     def seen(p, m, res):
         v = m["view"][0]
         src = p["steps"][0][1]
